@@ -192,10 +192,10 @@ package zygo
 //@ func (*Stack).Push
 //@ requires typeinv[Stack] wfs(stack)
 //@ C01 nopanic
-//@ C01,C15,C19 modifies stack.tos, stack.elements, elems(stack.elements)
-//@ C01,C15,C19 ensures wfs(stack) && stack.tos == old(stack.tos) + 1 && stack.elements[stack.tos] == elem
+//@ C01,C04,C15,C19 modifies stack.tos, stack.elements, elems(stack.elements)
+//@ C01,C04,C15,C19 ensures wfs(stack) && stack.tos == old(stack.tos) + 1 && stack.elements[stack.tos] == elem
 //@ C01,C15 ensures keeps: forall(k, 0 <= k && k <= old(stack.tos) ==> stack.elements[k] == old(stack.elements[k]))
-//@ C15 ensures same-or-new-array: sarr(stack.elements) == old(sarr(stack.elements)) || fresh(sarr(stack.elements))
+//@ C04,C15 ensures same-or-new-array: sarr(stack.elements) == old(sarr(stack.elements)) || fresh(sarr(stack.elements))
 
 //@ func (*Stack).Pop
 //@ requires typeinv[Stack] wfs(stack)
@@ -1176,9 +1176,27 @@ package zygo
 //@ C02 loop 0 invariant 0 <= i && (i <= n || n < 0) && len(arr) == n && fresh(sarr(arr)) && soff(arr) == 0 && forall(k, 0 <= k && k < i ==> arr[k] == stack.elements[stack.tos - n + 1 + k].(DataStackElem).expr)
 //@ func (*Stack).PopExpressions
 //@ requires typeinv[Stack] wfs(stack)
-//@ C02 modifies stack.tos, stack.elements, elems(stack.elements)
-//@ C02 ensures in-push-order: r1 == nil && n >= 0 ==> stack.tos == old(stack.tos) - n && len(r0) == n && forall(k, 0 <= k && k < n ==> r0[k] == old(stack.elements[stack.tos - n + 1 + k].(DataStackElem).expr))
-//@ C02 ensures short: r1 != nil ==> stack.tos == old(stack.tos)
+//@ C02,C04 modifies stack.tos, stack.elements, elems(stack.elements)
+//@ C02,C04 ensures in-push-order: r1 == nil && n >= 0 ==> stack.tos == old(stack.tos) - n && len(r0) == n && forall(k, 0 <= k && k < n ==> r0[k] == old(stack.elements[stack.tos - n + 1 + k].(DataStackElem).expr))
+//@ C02,C04 ensures short: r1 != nil ==> stack.tos == old(stack.tos)
+// the name/type check of a call to a declared (func ...) function takes ALL the submitted operands
+// off the data stack (names and values: *nargs of them) and puts back exactly the values it then
+// reports in *nargs; whatever it did not take would stay behind for ever. (The postcondition
+// "depth changes by new *nargs - old *nargs" needs frames for the whole HashGet / dot-path call
+// tree under the loops; the two stack operations are pinned down instead.)
+//@ func (*Zlisp).prepareLazyFinalArgs
+//@ C04 pure
+//@ C04 ensures r1 == nil && same(r0, args)
+//@ func (*Zlisp).FunctionCallNameTypeCheck
+//@ requires typeinv[Zlisp] distinctStacks(env)
+//@ requires typeinv[Stack] wfs(env.datastack)
+//@ requires f != nil && nargs != nil
+//@ C04 assert takes-all-submitted-operands @before call PopExpressions[*]: arg0 == env.datastack && arg1 == *nargs && *nargs == old(*nargs)
+//@ C04 assert puts-back-what-it-reports @before call PushExpressions[*]: arg0 == env.datastack && len(arg1) == *nargs
+//@ C04 ensures untyped-call-is-left-alone: old(f.inputTypes == nil || f.varargs) ==> r0 == nil && env.datastack.tos == old(env.datastack.tos) && *nargs == old(*nargs)
+// (and it looks at the operands in no other way: peeking would leave them where they are)
+//@ callers C04 (*Stack).GetExpressions | (*Stack).PopExpressions, (*Zlisp).CallUserFunction, (*Zlisp).CallFunction
+
 // a variadic call replaces the extra arguments by one list (or nil when there are none)
 //@ func (*Zlisp).wrangleOptargs
 //@ requires typeinv[Zlisp] distinctStacks(env)
